@@ -1,5 +1,6 @@
 import Pandora.Drv.Util
 import Pandora.Model.C10
+import Pandora.Model.C10R6
 import Pandora.Spec.C10
 
 /-!
@@ -363,6 +364,68 @@ def handleScn (kv : List (String × String)) (impl : String) : String × String 
                else firstFail [vHits, Spec.C10.judgeShots scn (steps.map fun s => (s.name, stepTruth redirect s)) n (obs.map ObsS.toObs)]
       (fmtLine "ok" (replicate n one) ++ hitsField, v)
 
+/-! k=http … ovf=0|1 (round 6): the pool runs with `discard_overflow` set; some requests are answered late, so that the
+instance falls behind its schedule. The target logs which requests it saw (`hits=q1:1,q2:0,…`): a request it saw was
+fired. The model's run is `runPoolD`: every acquired ammo is fired (its own sample), or discarded (one `discarded` / 777
+sample), by the fate the target's log gives it. -/
+
+def leId (a b : String × Nat) : Bool := a.2 ≤ b.2
+
+def handleOvf (kv : List (String × String)) (impl : String) : String × String :=
+  let cfg : AutoTagCfg := { enabled := getS kv "auto" == "1", uriElements := (getN? kv "el").getD 0, noTagOnly := getS kv "nto" == "1" }
+  match (splitList (getS kv "reqs") ";").mapM parseHReq with
+  | none => ("-", "fail:driver:unparsable reqs")
+  | some reqs =>
+    let ikv := parseKV impl
+    match parseSamples true (getS ikv "s") with
+    | none => ("-", s!"fail:crash:unparsable observation {impl.take 120}")
+    | some obs =>
+      let res := getS ikv "res"
+      let hits := parseHits (getS ikv "hits")
+      let n := reqs.length
+      let firedAt (i : Nat) : Bool := ((hits[i]?).map (·.2)).getD 0 > 0
+      let idx := List.range n
+      let rows := idx.map fun i =>
+        let r := reqs[i]!
+        let mine := obs.filter (·.id == i + 1)
+        let o1 := mine.head?
+        let shape := ((o1.bind fun o => parseShape o.shape).getD .other)
+        let (outcome, truth) : HttpOutcome × Truth := reqOutcome false r.truth r.script ((o1.map (·.proto)).getD 0) shape
+        let plan : ShotPlan := { ammoTag := r.tag, path := r.path, outcome := outcome }
+        let fate : Fate := if firedAt i then .fired else .discarded
+        let exp := Spec.C10.expectedTag cfg.enabled cfg.uriElements cfg.noTagOnly r.tag r.path
+        -- a request the target never saw, with a sample of a FAILED exchange: it was fired and did not get through (an
+        -- overloaded host); nothing can be concluded about the instance's decision
+        let lost := !firedAt i && mine.any fun o => o.proto == 0 && o.net != 0
+        (((), plan, fate), outcomeShape outcome, Spec.C10.judgeFiredOrNot (firedAt i) exp truth (mine.map ObsS.toObs), lost)
+      -- the model's run: acquisition order = request order for the ids the harness prints (one instance: the real ids;
+      -- several: the request numbers)
+      let model := runPoolD cfg 0 (rows.map (·.1))
+      let parts : List (String × Nat) := model.map fun s =>
+        (fmtSample true s (if s.id == 0 then "nil" else ((rows[s.id - 1]?).map (·.2.1)).getD "nil"), s.id)
+      let line := (parts.mergeSort leId).map (·.1)
+      let discards := (obs.filter fun o => Spec.C10.isDiscarded o.toObs).length
+      let stray := obs.filter fun o => (o.id == 0 && !Spec.C10.isDiscarded o.toObs) || o.id > n
+      let unfired := (idx.filter fun i => !firedAt i).length
+      let multi := ((getN? kv "inst").getD 1) > 1
+      let implIds : List Nat := (splitList (getS ikv "ids") ",").filterMap String.toNat?
+      let realIds := implIds.filter (· != 0)
+      let modelIds : List Nat := List.replicate unfired 0 ++ (idx.filter firedAt).map (· + 1)
+      let plausible := implIds.length == modelIds.length && realIds.length + unfired == implIds.length &&
+        Spec.C10.idsUnique realIds && realIds.all (fun i => 1 ≤ i && i ≤ n) && (implIds.take unfired).all (· == 0)
+      let idsField := if !multi then "" else
+        " ids=" ++ String.intercalate "," ((if plausible then implIds else modelIds).map toString)
+      let vIds := if multi && !Spec.C10.idsUnique realIds then
+          s!"fail:ids:{realIds.length} samples carry ids {getS ikv "ids"}"
+        else "ok"
+      let hitsField := " hits=" ++ String.intercalate "," (hits.map fun (nm, k) => s!"{nm}:{k}")
+      let v := if res != "ok" then s!"fail:run:{res}"
+               else if hits.length != n then s!"fail:crash:unparsable observation {impl.take 120}"
+               else if rows.any (·.2.2.2) then "skip:inconclusive-a-request-failed-before-it-reached-the-target"
+               else if !stray.isEmpty then "fail:count:sample with an id no request carries"
+               else firstFail (rows.map (·.2.2.1) ++ [Spec.C10.judgeDiscards n unfired discards, vIds])
+      (fmtLine "ok" line ++ idsField ++ hitsField, v)
+
 /-! k=grpc, k=grpcscn, k=grpcdirect -/
 
 def grpcOutcome (kind : String) (code : Nat) : Option GrpcOutcome :=
@@ -668,7 +731,8 @@ def handle : Handler := fun input impl =>
   else if impl.startsWith "PANIC" then ("-", s!"fail:panic:{impl.take 160}")
   else if impl == "HANG" then ("-", "fail:hang:driver case timed out")
   else match getS kv "k" with
-  | "http" => if getS kv "pan" == "1" then handleHttpFatal kv impl else handleHttp kv impl
+  | "http" => if getS kv "pan" == "1" then handleHttpFatal kv impl
+              else if getS kv "ovf" != "" then handleOvf kv impl else handleHttp kv impl
   | "scn" => handleScn kv impl
   | "grpc" => handleGrpc kv impl
   | "grpcscn" => handleGrpcScn kv impl
